@@ -94,6 +94,12 @@ static int check_nlsf(int cbi, const opus_int8* ind, Report& rep, int16_t* out, 
   VP_REQUIRE(memcmp(st, out, sizeof(int16_t) * d) == 0, "c18:nlsf-dequant-arith",
              "cb=%s indices=[%s]: silk_NLSF_decode=[%s] but stabilize(RFC reconstruction [%s])=[%s]", C.name, vstr(ind, d + 1).c_str(),
              vstr(out, d).c_str(), vstr(raw, d).c_str(), vstr(st, d).c_str());
+  int16_t rfc[16];
+  memcpy(rfc, raw, sizeof(int16_t) * d);
+  c18::model_stabilize(rfc, C.dmin, d);
+  VP_REQUIRE(memcmp(rfc, out, sizeof(int16_t) * d) == 0, "c18:nlsf-differs-from-rfc",
+             "cb=%s indices=[%s]: silk_NLSF_decode=[%s], RFC 6716 4.2.7.5.4 applied to the reconstruction [%s] gives [%s]", C.name, vstr(ind, d + 1).c_str(),
+             vstr(out, d).c_str(), vstr(raw, d).c_str(), vstr(rfc, d).c_str());
   if (rv < 0) {
     VP_REQUIRE(memcmp(raw, out, sizeof(int16_t) * d) == 0, "c18:nlsf-valid-vector-altered", "cb=%s indices=[%s]: reconstruction [%s] is already valid but came out as [%s]",
                C.name, vstr(ind, d + 1).c_str(), vstr(raw, d).c_str(), vstr(out, d).c_str());
@@ -131,6 +137,16 @@ static int check_lpc(const int16_t* nlsf, int d, const opus_int16* a, Report& re
       double dv = std::fabs(q - a[i]);
       if (dv > maxdev) maxdev = dv > 100000 ? 100000 : (int)dv;
       cand[i] = (int16_t)(q > 32767 ? 32767 : q < -32768 ? -32768 : q);
+    }
+    // bandwidth expansion and the 16-bit fit only ever shrink a coefficient towards zero: a large coefficient
+    // never changes sign and never grows (observed ratio 0 .. 1.0005 over 4e7 vectors) - catches int16 wrap-around
+    for (int i = 0; i < d; i++) {
+      double q = std::floor(am[i] * 4096.0 + 0.5);
+      if (std::fabs(q) >= 8192.0) {
+        double ratio = a[i] / q;
+        VP_REQUIRE(ratio >= 0.0 && ratio <= 1.002, "c18:lpc-not-a-contraction", "%s: NLSF=[%s] coefficient %d: double-precision value %.0f (Q12), library %d", what,
+                   vstr(nlsf, d).c_str(), i, q, a[i]);
+      }
     }
     int gap = std::min((int)nlsf[0], 32768 - nlsf[d - 1]);
     for (int i = 1; i < d; i++) gap = std::min(gap, nlsf[i] - nlsf[i - 1]);
@@ -631,7 +647,7 @@ static int family_enum_nlsf(int fam, Choice& c, Report& rep, Flags& fl) {
     }
     rep.label("family:enum-nb-block");
     rep.note("NB/MB codebook, stage-1 vector %d, residuals {-10,0,10}^10 block %d (243 vectors): %d stabilised, %d bandwidth-expanded", i1, blk, nstab, nbwe);
-    rep.fingerprint(mix(7, i1 * 256 + blk));
+    rep.fingerprint(7); rep.fingerprint(i1 * 256 + blk);
   } else if (fam == 8) {
     int i1 = c.byte() & 31, blk = c.byte();
     ind[0] = (opus_int8)i1;
@@ -644,7 +660,7 @@ static int family_enum_nlsf(int fam, Choice& c, Report& rep, Flags& fl) {
     }
     rep.label("family:enum-wb-block");
     rep.note("WB codebook, stage-1 vector %d, residuals {-10,10}^16 block %d (256 vectors): %d stabilised, %d bandwidth-expanded", i1, blk, nstab, nbwe);
-    rep.fingerprint(mix(8, i1 * 256 + blk));
+    rep.fingerprint(8); rep.fingerprint(i1 * 256 + blk);
   } else {
     int cbi = c.byte() & 1, i1 = c.byte() & 31;
     const int d = g_cb[cbi].cb->order;
@@ -667,7 +683,7 @@ static int family_enum_nlsf(int fam, Choice& c, Report& rep, Flags& fl) {
       }
     rep.label("family:enum-single-coefficient");
     rep.note("%s codebook, stage-1 vector %d, each coefficient at -10..10 with the others zero: %d stabilised, %d bandwidth-expanded", g_cb[cbi].name, i1, nstab, nbwe);
-    rep.fingerprint(mix(9, cbi * 32 + i1));
+    rep.fingerprint(9); rep.fingerprint(cbi * 32 + i1);
   }
   if (nstab) fl.stabilised = true;
   if (nbwe) fl.bwe = true;
@@ -686,7 +702,7 @@ static int family_enum_gains(Choice& c, Report& rep, Flags& fl) {
     }
   rep.label("family:enum-gains");
   rep.note("gains: previous index %d, %s first index: all %d first x 41 second indices", prev, cond ? "delta-coded" : "independently coded", n0);
-  rep.fingerprint(mix(10, prev * 2 + cond));
+  rep.fingerprint(10); rep.fingerprint(prev * 2 + cond);
   return 0;
 }
 
@@ -697,7 +713,7 @@ static int family_enum_pitch(Choice& c, Report& rep, Flags& fl) {
     if (check_pitch(fs, nb, lag, contour, rep, fl)) return 1;
   rep.label("family:enum-pitch");
   rep.note("pitch: %d kHz, %d sub-frames, contour %d, lag index -64..600", fs, nb, contour);
-  rep.fingerprint(mix(11, fs * 1000 + nb * 100 + contour));
+  rep.fingerprint(11); rep.fingerprint(fs * 1000 + nb * 100 + contour);
   return 0;
 }
 
@@ -718,7 +734,7 @@ int vp_case(Choice& c, Report& rep) {
       r = check_nlsf_and_lpc(cbi, ind, rep, fl);
       rep.label("family:nlsf-random");
       rep.note("cb=%s indices=[%s]", g_cb[cbi].name, vstr(ind, d + 1).c_str());
-      rep.fingerprint(mix(cbi, fnv1a(ind, d + 1)));
+      rep.fingerprint(100 + cbi); rep.fingerprint(fnv1a(ind, d + 1));
       break;
     }
     case 1: r = family_params(c, rep, fl); break;
@@ -729,7 +745,7 @@ int vp_case(Choice& c, Report& rep) {
       r = check_pitch(fs, nb, lag, contour, rep, fl);
       rep.label("family:pitch-random");
       rep.note("pitch fs=%d nb_subfr=%d lagIndex=%d contour=%d", fs, nb, lag, contour);
-      rep.fingerprint(mix(mix(fs, nb), mix(lag + 64, contour)));
+      rep.fingerprint(3); rep.fingerprint(fs * 10 + nb); rep.fingerprint((lag + 64) * 64 + contour);
       break;
     }
     case 4: r = family_rt_gains(c, rep, fl); break;
